@@ -9,7 +9,7 @@ ID = "C13"
 LEVEL = "exploration"
 RULE = ("cases are histories of up to 12 operations over up to 3 lists ([int...], [str...], nested [[int...]...], [int?...]) "
         "and 2 maps (map[str,int]) and their aliases / clones: push, remove, index read / assignment / op=, reverse, join "
-        "(incl. self- and alias-join), clear, clone, map / filter with logging and capturing callbacks (also closures made by a factory that outlived the frame they captured from, one of them counting its calls), index_of, len, ==, `is` (aliases, clones, fresh and empty lists), "
+        "(incl. self- and alias-join), clear, clone, map / filter with logging and capturing callbacks and with callbacks that grow, shrink or empty the receiver while it is being walked (also closures made by a factory that outlived the frame they captured from, one of them counting its calls), index_of, len, ==, `is` (aliases, clones, fresh and empty lists), "
         "an optional-element list that also stores present optionals produced by built-ins next to a shadow list of the same plain values (the two must stay ==), "
         "a map[int?, int] addressed through plain keys, nil and present optionals produced by built-ins, a [str?...] receiving what map.remove hands back, a map[str, int?] with entries that hold nil (set, replaced, removed, cloned; seen by contains_key / len / keys), a map[int, int] written through keys read from itself; string concatenation of elements; map literal, index read/assignment, replace, remove, contains_key, len, keys, "
         "values, pairs, clear, clone; indices from {-1, 0, 1, len-1, len, len+1}; every live container is printed after each "
@@ -17,7 +17,8 @@ RULE = ("cases are histories of up to 12 operations over up to 3 lists ([int...]
         "(Python lists / dicts with identity). Non-trivial = a mutation through one alias is observed through another, or an "
         "operation hits an empty container / boundary index; distinct by program text")
 ASSUMPTIONS = ["order of keys()/values()/pairs() is unspecified: only length and membership are compared",
-               "join appends the argument's elements to the receiver, returns the receiver and leaves the argument unchanged"]
+               "join appends the argument's elements to the receiver, returns the receiver and leaves the argument unchanged",
+               "map / filter visit the receiver by a live index (as the interpreter's loop `index < len` does): an element the callback appends is visited, one it removes before its turn is not"]
 
 S = lambda s: ("lit", "str", s)
 V = lambda n: ("var", n)
@@ -90,6 +91,22 @@ def cases(draw):
         return n == 0
 
     boundary |= new_int_list("la")
+    # callbacks that change the length of `la` - the receiver itself when map / filter is called on `la` or an alias of it - while
+    # map / filter is running: they grow it (bounded), shrink it from the end, or empty it
+    mutators = g.chance(45)
+    if mutators:
+        la_len = ("mcall", V("la"), "len", [])
+        stmts.append(("decl", "grow", None, ("fn", [("v", "int")], "int", [
+            ("if", ("bin", "<", la_len, I(g.int(3, 6))), [("expr", ("mcall", V("la"), "push", [("bin", "+", V("v"), I(10))]))], None),
+            ("return", ("bin", "*", V("v"), I(2)))]), ()))
+        stmts.append(("decl", "shrink", None, ("fn", [("v", "int")], "int", [
+            ("if", ("bin", ">", la_len, I(g.int(0, 2))), [("expr", ("mcall", V("la"), "remove", [("bin", "-", la_len, I(1))]))], None),
+            ("return", ("bin", "+", V("v"), I(100)))]), ()))
+        stmts.append(("decl", "growf", None, ("fn", [("v", "int")], "bool", [
+            ("if", ("bin", "<", la_len, I(g.int(3, 6))), [("expr", ("mcall", V("la"), "push", [("bin", "+", V("v"), I(1))]))], None),
+            ("return", ("bin", "!=", ("bin", "%", V("v"), I(3)), I(0)))]), ()))
+        stmts.append(("decl", "wipef", None, ("fn", [("v", "int")], "bool", [
+            ("expr", ("mcall", V("la"), "clear", [])), ("return", ("lit", "bool", True))]), ()))
     if g.chance(60):
         stmts.append(("decl", "ls", LS, ("list", [S(g.choice(["x", "y", "zz"])) for _ in range(g.int(0, 3))]), ()))
         strs.append("ls")
@@ -153,16 +170,22 @@ def cases(draw):
             g.label("alias")
         elif op == "map":
             name = "m%d" % step
-            stmts.append(("decl", name, None, ("mcall", V(l), "map", [V(g.choice(["dbl", "addk", "add5", "cnt", "add5", "cnt"]))]), ()))
+            cb = g.choice(["dbl", "addk", "add5", "cnt", "add5", "cnt"] + (["grow", "shrink", "grow", "shrink"] if mutators else []))
+            stmts.append(("decl", name, None, ("mcall", V(l), "map", [V(cb)]), ()))
             ints.append(name)
             g.label("map")
+            if cb in ("grow", "shrink"):
+                g.label("map-callback-changes-length-of-la:" + cb)
             if stmts[-1][3][3][0][1] in ("add5", "cnt"):
                 g.label("callback-outlived-its-frame")
         elif op == "filter":
             name = "f%d" % step
-            stmts.append(("decl", name, None, ("mcall", V(l), "filter", [V(g.choice(["even", "big", "over4"]))]), ()))
+            cb = g.choice(["even", "big", "over4"] + (["growf", "wipef", "growf"] if mutators else []))
+            stmts.append(("decl", name, None, ("mcall", V(l), "filter", [V(cb)]), ()))
             ints.append(name)
             g.label("filter")
+            if cb in ("growf", "wipef"):
+                g.label("filter-callback-changes-length-of-la:" + cb)
         elif op == "index_of":
             e = ("mcall", V(l), "index_of", [I(g.int(0, 9))])
             if g.chance(35):
